@@ -612,6 +612,7 @@ type syncFn struct {
 	flags map[types.Object]bool
 	jumps  []dset // per enclosing loop: states at break/continue statements
 	breaks []dset // per enclosing loop: states at break statements only (what leaves a `for {}`)
+	defers []*ast.CallExpr // calls deferred so far, applied (as "may have been deferred") at every exit
 	bind  map[int]types.Object
 	// the state before the statement being executed, and before the previous one of the same list
 	curIn, prevIn dset
@@ -666,6 +667,7 @@ func (e *syncEngine) analyze(fi *core.FuncInfo) *syncSummary {
 	start := dset{dtuple{st: stE}: true}
 	out, term := f.stmts(fi.Decl.Body.List, start)
 	if !term {
+		out = f.runDefers(out)
 		for k := range out {
 			f.sum.exits[dtuple{st: k.st}] = true
 		}
@@ -777,6 +779,7 @@ func (f *syncFn) stmt(st ast.Stmt, s dset) (dset, bool) {
 		for _, r := range x.Results {
 			s = f.expr(r, s)
 		}
+		s = f.runDefers(s)
 		if f.isErrorExit(x) {
 			for k := range s {
 				f.sum.errExits[dtuple{st: k.st}] = true
@@ -871,6 +874,18 @@ func (f *syncFn) stmt(st ast.Stmt, s dset) (dset, bool) {
 		return f.loop(x.Cond, x.Body, x.Post, s), false
 	case *ast.RangeStmt:
 		s = f.expr(x.X, s)
+		// a table of steps: the loop runs its elements in order — each one a call of the function it denotes, skipped
+		// when its guard says so
+		if steps, run := f.e.c.stepTable(f.fi, x); steps != nil {
+			for _, st := range steps {
+				out := f.applySummary(st.fn, run.Pos(), s)
+				if st.guarded {
+					out = out.union(s)
+				}
+				s = out
+			}
+			return s, false
+		}
 		return f.loop(nil, x.Body, nil, s), false
 	case *ast.SwitchStmt:
 		if x.Init != nil {
@@ -913,7 +928,12 @@ func (f *syncFn) stmt(st ast.Stmt, s dset) (dset, bool) {
 	case *ast.ExprStmt:
 		return f.expr(x.X, s), false
 	case *ast.DeferStmt:
-		return f.expr(x.Call, s), false
+		// the arguments are evaluated now, the call runs when the function returns — after whatever follows
+		for _, a := range x.Call.Args {
+			s = f.expr(a, s)
+		}
+		f.defers = append(f.defers, x.Call)
+		return s, false
 	case *ast.GoStmt:
 		return f.expr(x.Call, s), false
 	case *ast.IncDecStmt:
@@ -1114,6 +1134,19 @@ func (f *syncFn) foreverLoop(body *ast.BlockStmt, post ast.Stmt, s dset) (dset, 
 		}
 	}
 	return left, len(left) > 0
+}
+
+// runDefers applies the calls deferred so far, last first. A defer met on some path only (in a branch, in a loop) may
+// or may not be pending: both outcomes are kept.
+func (f *syncFn) runDefers(s dset) dset {
+	for i := len(f.defers) - 1; i >= 0; i-- {
+		call := f.defers[i]
+		if _, isLit := core.Unparen(call.Fun).(*ast.FuncLit); isLit {
+			continue // deferred literals below Flatten only recover or log; their bodies are not followed
+		}
+		s = s.union(f.call(call, s))
+	}
+	return s
 }
 
 func (f *syncFn) mutate(s dset) dset {
@@ -1359,6 +1392,50 @@ func (f *syncFn) call(call *ast.CallExpr, s dset) dset {
 		s = out
 	}
 	return s
+}
+
+// applySummary applies the summary of a module function called through a function value (an element of a table of
+// steps): the entry requirement, then the success exits.
+func (f *syncFn) applySummary(cf *core.FuncInfo, pos token.Pos, s dset) dset {
+	cs := f.e.sum[cf]
+	if cs == nil {
+		cs = &syncSummary{exits: dset{dtuple{st: stE}: true}}
+	}
+	if cs.needsSync {
+		if s.has(stE) && !f.sum.needsSync {
+			f.sum.needsSync = true
+			f.sum.needsWhy = "calls " + cf.Obj.Name() + " (" + cs.needsWhy + ")"
+		}
+		key := f.fi.QName() + "->" + cf.Obj.Name()
+		if f.e.collect {
+			if s.has(stT) {
+				f.e.viols[key] = syncViolation{fn: f.fi, pos: pos, key: key,
+					what: fmt.Sprintf("%s is entered while the index may be stale (a document mutation earlier on this path is not followed by a re-analysis); %s reads the index before mutating anything (%s): its keys may not resolve against the document", cf.Obj.Name(), cf.Obj.Name(), cs.needsWhy)}
+			} else {
+				f.e.holds[key] = syncViolation{fn: f.fi, pos: pos, what: cf.Obj.Name() + " reads the index at entry and is always entered with the index in sync (state " + s.states() + ")"}
+			}
+		}
+	}
+	if f.e.calleeMutatesDoc(cf) && len(cs.exits) == 0 {
+		return f.mutate(s)
+	}
+	out := dset{}
+	for k := range s {
+		for ek := range cs.exits {
+			st := ek.st
+			if st == stE {
+				st = k.st
+			}
+			out[dtuple{st: st, flags: k.flags}] = true
+		}
+		if len(cs.exits) == 0 {
+			out[k] = true
+		}
+	}
+	if cs.mutates {
+		f.sum.mutates = true
+	}
+	return out
 }
 
 // calleeReadsProvider: the callee (or what it calls) invokes a method on its Provider/Spec parameter.
